@@ -19,6 +19,7 @@ META = {
 }
 META["explanation"] += " " + "(X-copykind) the copy constructor of TagBit keeps the kind of its source in every arm (a Make<K>Tag helper may be used only in an arm whose labels are exactly K). PR-looptag additionally: every scanner that takes the loop context receives the caller's current one."
 META["explanation"] += " " + '(PR-childflag) typestate pairing on the CFG of parse(): the in-a-child-tag flag is set only together with a push of the parent storage, and on every path out of the statement that pops it the flag is false exactly when the storage was popped. (SIGN-unit) a raw code unit is ordered against a constant only where the enclosing condition gives the same answer for signed and unsigned units (three-valued evaluation of the formula for "a unit >= 0x80" in both readings).'
+META["explanation"] += " " + '(IDX-digits) every call of the unchecked Digit::FastStringToNumber is preceded by a digit scan of the same (pointer, length), bounded by the length and by a constant number of digits, and by a return for a partial or empty match.'
 
 T = "Qentem::TemplateCore::"
 
@@ -302,8 +303,9 @@ def run(ctx):
             r.ob(g.q, g.text(c)[:60], at in ctxvars, "loop context passed: `%s` (in scope: %s)" % (at, ctxvars), g.loc(c))
     rules.append(r)
     rules.append(rule_child_flag(ctx, m, pf))
-    from rules.common import rule_sign_unit
+    from rules.common import rule_sign_unit, rule_fast_digits
     rules.append(rule_sign_unit(ctx, m, ["Template.hpp", "Digit.hpp", "QExpression.hpp", "StringUtils.hpp"]))
+    rules.append(rule_fast_digits(ctx, m))
     return rules
 
 
